@@ -364,6 +364,8 @@ pub fn resolve_inputs(spec: &str, seed: u64) -> Vec<Input> {
             "ops" => out.extend(operator_inputs()),
             "manyimp" => out.extend(many_import_inputs()),
             "offsets" => out.extend(offset_inputs()),
+            "bodysizes" => out.extend(body_size_inputs(false)),
+            "bodysizes-big" => out.extend(body_size_inputs(true)),
             "dwarfed" => out.extend(dwarfed_inputs(seed, f[1].parse().unwrap())),
             "exectab" => out.extend(exec_table_inputs(seed, f[1].parse().unwrap())),
             "dupimp" => out.extend(duplicate_import_inputs(seed, f[1].parse().unwrap())),
@@ -1228,6 +1230,64 @@ pub fn dwarfed_inputs(seed: u64, n: u64) -> Vec<Input> {
         let bytes = wat::parse_str(wat).unwrap();
         for version in [4u16, 5] {
             out.push(Input { id: format!("dwarfed-nocode-{}-v{}", k, version), bytes: crate::dwarf::attach_minimal(&bytes, version), source: format!("dwarf:nocode:{}:v{}", k, version) });
+        }
+    }
+    out
+}
+
+/// Code entries whose body size sits on and around the LEB128 length boundaries (127/128/129 and 16383/16384/16385
+/// bytes), built from instructions walrus neither drops nor resizes, so the emitted bodies have the same sizes; the
+/// boundary function is first, last, or between two others, with an if/else inside so that inserted positions exist.
+pub fn body_size_inputs(big: bool) -> Vec<Input> {
+    use crate::gen::*;
+    use wasm_encoder::Instruction as I;
+    let mut out = vec![];
+    // body size = 1 (locals count) + payload + 1 (end); payload pieces: const;drop of 3, 4 and 5 bytes
+    let payload = |n: usize| -> Vec<I<'static>> {
+        let mut v = vec![];
+        let mut left = n;
+        // an if/else with an empty else first (10 bytes: i32.const 1; if; i32.const 2; drop; else; end)
+        if left >= 12 {
+            v.extend([I::I32Const(1), I::If(wasm_encoder::BlockType::Empty), I::I32Const(2), I::Drop, I::Else, I::End]);
+            left -= 9;
+        }
+        while left > 0 {
+            match left {
+                4 | 8 => {
+                    v.extend([I::I32Const(64), I::Drop]);
+                    left -= 4;
+                }
+                5 => {
+                    v.extend([I::I32Const(8192), I::Drop]);
+                    left -= 5;
+                }
+                1 | 2 => panic!("unreachable size"),
+                _ => {
+                    v.extend([I::I32Const(0), I::Drop]);
+                    left -= 3;
+                }
+            }
+        }
+        v
+    };
+    let sizes: &[usize] = if big { &[16383, 16384, 16385] } else { &[126, 127, 128, 129, 130] };
+    for &size in sizes {
+        for pos in 0..3 {
+            let mut d = Desc::default();
+            d.types.push(Sig { params: vec![], results: vec![] });
+            let sizes: Vec<usize> = match pos {
+                0 => vec![size, 20, 40],
+                1 => vec![20, size, 40],
+                _ => vec![40, 20, size],
+            };
+            for (k, sz) in sizes.iter().enumerate() {
+                d.funcs.push(FuncD { ty: 0, imported: false });
+                let mut ins = payload(sz - 2);
+                ins.push(I::End);
+                d.bodies.push(BodyD { locals: vec![], instrs: ins });
+                d.exports.push(ExportD { name: format!("f{}", k), kind: wasm_encoder::ExportKind::Func, idx: k as u32 });
+            }
+            out.push(Input { id: format!("bodysize-{}-{}", size, pos), bytes: d.encode(), source: format!("bodysizes:{}:{}", size, pos) });
         }
     }
     out
